@@ -4,7 +4,9 @@ set -e
 cd "$(dirname "$0")"
 export GOFLAGS=-mod=mod GOPROXY=off GOSUMDB=off GOTOOLCHAIN=local
 mkdir -p bin work evidence replays
+(cd extract && go build -o ../bin/extract .)
+rm -f lean/PalomaModel/Gen/*.lean
+./bin/extract -repo /repo -out lean/PalomaModel/Gen
 (cd lean && lake build PalomaModel driver)
-if [ -d extract ]; then (cd extract && go build -o ../bin/extract .); fi
 (cd harness && cp /repo/go.sum . 2>/dev/null || true; go test -c -tags verif -ldflags '-X github.com/cosmos/cosmos-sdk/version.Version=v2.4.0' -o ../bin/harness.test .)
 echo setup-ok
